@@ -2,6 +2,7 @@ from __future__ import division, print_function
 import numpy as np
 from bct.utils import BCTParamError, binarize, get_rng
 from bct.utils import pick_four_unique_nodes_quickly
+from bct.utils.miscellaneous_utilities import _VERIF_ON, _verif_event
 from .clustering import number_of_components
 from ..citations import MASLOV2002, SPORNS2004, RUBINOV2011
 from ..due import BibTeX, due
@@ -124,6 +125,8 @@ def latmio_dir_connected(R, itr, D=None, seed=None):
                         j[e1] = d
                         j[e2] = b  # reassign edge indices
                         eff += 1
+                        if _VERIF_ON:
+                            _verif_event('swap', fn='latmio_dir_connected', R=R, i=i, j=j, e1=e1, e2=e2, D=D)
                         break
             att += 1
 
@@ -221,6 +224,8 @@ def latmio_dir(R, itr, D=None, seed=None):
                     j[e1] = d
                     j[e2] = b  # reassign edge indices
                     eff += 1
+                    if _VERIF_ON:
+                        _verif_event('swap', fn='latmio_dir', R=R, i=i, j=j, e1=e1, e2=e2, D=D)
                     break
             att += 1
 
@@ -360,6 +365,8 @@ def latmio_und_connected(R, itr, D=None, seed=None):
                         j[e1] = d
                         j[e2] = b
                         eff += 1
+                        if _VERIF_ON:
+                            _verif_event('swap', fn='latmio_und_connected', R=R, i=i, j=j, e1=e1, e2=e2, D=D)
                         break
             att += 1
 
@@ -467,6 +474,8 @@ def latmio_und(R, itr, D=None, seed=None):
                     j[e1] = d
                     j[e2] = b
                     eff += 1
+                    if _VERIF_ON:
+                        _verif_event('swap', fn='latmio_und', R=R, i=i, j=j, e1=e1, e2=e2, D=D)
                     break
             att += 1
 
@@ -1205,6 +1214,8 @@ def randmio_dir_connected(R, itr, seed=None):
                     j[e1] = d  # reassign edge indices
                     j[e2] = b
                     eff += 1
+                    if _VERIF_ON:
+                        _verif_event('swap', fn='randmio_dir_connected', R=R, i=i, j=j, e1=e1, e2=e2)
                     break
             att += 1
 
@@ -1273,6 +1284,8 @@ def randmio_dir(R, itr, seed=None):
                 i[e1] = d
                 j[e2] = b  # reassign edge indices
                 eff += 1
+                if _VERIF_ON:
+                    _verif_event('swap', fn='randmio_dir', R=R, i=i, j=j, e1=e1, e2=e2)
                 break
             att += 1
 
@@ -1392,6 +1405,8 @@ def randmio_und_connected(R, itr, seed=None):
                     j[e1] = d
                     j[e2] = b  # reassign edge indices
                     eff += 1
+                    if _VERIF_ON:
+                        _verif_event('swap', fn='randmio_und_connected', R=R, i=i, j=j, e1=e1, e2=e2)
                     break
             att += 1
 
@@ -1552,6 +1567,8 @@ def randmio_und(R, itr, seed=None):
                 j[e1] = d
                 j[e2] = b  # reassign edge indices
                 eff += 1
+                if _VERIF_ON:
+                    _verif_event('swap', fn='randmio_und', R=R, i=i, j=j, e1=e1, e2=e2)
                 break
             att += 1
 
@@ -1695,6 +1712,8 @@ def randomize_graph_partial_und(A, B, maxswap, seed=None):
             j[e1] = d
             j[e2] = b  # reassign edge indices
             nswap += 1
+            if _VERIF_ON:
+                _verif_event('swap', fn='randomize_graph_partial_und', R=A, i=i, j=j, e1=e1, e2=e2)
     return A
 
 
